@@ -51,10 +51,12 @@ def generate(seed, tier):
     R = core.Rngs(seed)
     r = R('events')
     nobj = r.randint(3, 9)
+    if r.random() < 0.1:
+        nobj = r.randint(10, 18)        # two-digit numbers (and more than nine objects of a kind)
     objs = []
     for k in range(nobj):
         spell = r.choice(['lab%d', 'lab%d', 'sec:a%d', 'eq-1-%d', '9%d', 'my lab %d', 'Fig.%d'])     # no '_' : a label argument is not read verbatim (in math '_' is a subscript), which is argument parsing (C05), not resolution
-        objs.append({'kind': r.choice(KINDS), 'm': 'ob%d' % k, 'label': (spell % k) if r.random() < 0.7 else None,
+        objs.append({'kind': r.choice(KINDS), 'm': 'ob%02d' % k, 'label': (spell % k) if r.random() < 0.7 else None,
                      'lsp': r.random() < 0.15, 'lmac': r.random() < 0.12})
     labels = [o['label'] for o in objs if o['label']]
     refs = []
